@@ -212,6 +212,12 @@ def check_metadata(dlf, exp, i, opmap):
                             f"{where}: set template has no attribute {lab!r} (labels: "
                             f"{[t.label for t in s.template][:30]})"))
                 continue
+            if 'v' not in ea.raw:
+                # units only (no value assigned): whatever value the writer derives, it carries the user's units
+                if da is not None and not da.absent and da.values is not None and (da.units or '') != (ea.units or ''):
+                    out.append(('attr-units', f"{eo.kind}.{lab}", f"{where}: {lab} units {da.units!r}, the user assigned "
+                                                                  f"{ea.units!r} (without a value)"))
+                continue
             alt_units = alt_values = None
             if eo.kind == 'frame' and lab in ('INDEX-MIN', 'INDEX-MAX', 'SPACING') and 'INDEX-TYPE' in eo.attrs:
                 # documented: the index attributes take the units of the index channel unless units were given
